@@ -38,31 +38,26 @@ replace github.com/gnolang/gno => %s
 """
 
 
-def prepare_gomod():
-    """(Re)generate harness/go.mod + go.sum from the template. Never reuse a go.mod that
-    -mod=mod already rewrote (pruned requires break offline resolution)."""
-    tmp = os.path.join(HARNESS, ".go.mod.%d" % os.getpid())
-    with open(tmp, "w") as f:
+def go_build(cmd, ctx=None, tags="verif", timeout=1800):
+    """Build harness/cmd/<cmd> against REPO's current working tree (env VERIF_REPO overrides
+    /repo, for scratch worktrees). A private go.mod/go.sum pair is generated per build and
+    passed with -modfile, so concurrent builds never share or reuse a rewritten go.mod
+    (a go.mod that -mod=mod already pruned breaks offline resolution). Returns binary path."""
+    if ctx is not None:
+        d = ctx.scratch_dir("gobuild")
+    else:
+        os.makedirs(BUILD, exist_ok=True)
+        d = tempfile.mkdtemp(prefix="gobuild.", dir=BUILD)
+    with open(os.path.join(d, "go.mod"), "w") as f:
         f.write(GOMOD_TMPL % REPO)
-    os.replace(tmp, os.path.join(HARNESS, "go.mod"))
-    tmp = os.path.join(HARNESS, ".go.sum.%d" % os.getpid())
-    shutil.copyfile(os.path.join(REPO, "go.sum"), tmp)
-    os.replace(tmp, os.path.join(HARNESS, "go.sum"))
-
-
-def go_build(cmd, tags="verif", timeout=1500):
-    """Build harness/cmd/<cmd> against REPO's current working tree. Returns binary path."""
-    os.makedirs(BUILD, exist_ok=True)
-    prepare_gomod()
-    out = os.path.join(BUILD, "%s.%d" % (cmd, os.getpid()))
-    final = os.path.join(BUILD, cmd)
-    p = subprocess.run(["go", "build", "-tags", tags, "-o", out, "./cmd/" + cmd],
+    shutil.copyfile(os.path.join(REPO, "go.sum"), os.path.join(d, "go.sum"))
+    out = os.path.join(d, cmd)
+    p = subprocess.run(["go", "build", "-modfile=" + os.path.join(d, "go.mod"), "-tags", tags, "-o", out, "./cmd/" + cmd],
                        cwd=HARNESS, env=goenv(), capture_output=True, text=True, timeout=timeout)
     if p.returncode != 0:
         kind = "HOOK-STALE" if "verif_" in p.stderr else "BUILD-FAILED"
         raise Inconclusive(kind, p.stderr[-3000:])
-    os.replace(out, final)
-    return final
+    return out
 
 
 # ----------------------------------------------------------------------------- TLC
